@@ -103,7 +103,7 @@ func C07(p *ir.Program, r *report.R) {
 			n++
 			mu := s.Instr.(*ssa.MapUpdate)
 			k := ir.Render(mu.Key)
-			c.Guards(name, "insert block key image", s.Instr,
+			c.GuardsS(name, "insert block key image", s,
 				G{"not-seen-in-this-block", "!s.KeyImagesMap[" + k + "]"},
 				G{"store-state-ok", "eq(types.UTXOTransaction.CheckStoreState(*),nil)"})
 			r.Check("K1", name+"/insert block key image/source", p.InstrPos(s.Instr), strings.Contains(k, "types.UTXOTransaction.GetInputKeyImages("), "the images tested are those of GetInputKeyImages(): "+short(k, 120))
@@ -198,7 +198,7 @@ func C07(p *ir.Program, r *report.R) {
 		kp := p.Func("mempool", "Mempool.KeyImagePush")
 		for _, s := range p.Stores(p.Field("mempool", "Mempool.kImageCache")) {
 			if s.Fn == kp && s.Kind == "mapupdate" {
-				c.Guards("mempool.(*Mempool).KeyImagePush", "insert", s.Instr, G{"absent", "!m.kImageCache[key]#1 || !m.kImageCache[key]"})
+				c.GuardsS("mempool.(*Mempool).KeyImagePush", "insert", s, G{"absent", "!m.kImageCache[key]#1 || !m.kImageCache[key]"})
 			}
 		}
 	}
